@@ -232,9 +232,24 @@ def _do_eval(obj, frame):
     return res, wl
 
 
+def observe_description(formula):
+    m = formulae.model_description(formula)
+    return {
+        "response": None if m.response is None else str(m.response.term.name),
+        "common": [str(t.name) for t in m.common_terms],
+        "group": [str(t.name) for t in m.group_terms],
+        "var_names": sorted(str(v) for v in m.var_names),
+    }
+
+
 def run_reference(req):
     """Executed in a pristine grandchild: set mode, build, optionally evaluate."""
     formulae.config[KEY] = req["mode"]
+    if "describe" in req:
+        try:
+            return {"describe": ("ok", observe_description(req["describe"]))}
+        except Exception as e:  # noqa: BLE001
+            return {"describe": ("raise", type(e).__name__)}
     clients = [prelude.make_client(c, i, req["ns_extra"]) for i, c in enumerate(req["clients"])]
     b = req["build"]
     frame = F.build_frame(b["frame_spec"])
@@ -712,6 +727,21 @@ class World:
         gc.collect()
         self.bump("op.drop")
         return {"op": "drop", "outcome": "ok"}
+
+    def op_describe(self, op):
+        try:
+            obs = ("ok", observe_description(op["formula"]))
+        except Exception as e:  # noqa: BLE001
+            obs = ("raise", type(e).__name__)
+        self.bump("op.describe")
+        if "A" in self.oracles:
+            self.bump("check.A.describe")
+            ref = self.ref.ask({"mode": self.mode, "describe": op["formula"]})["describe"]
+            d = compare_obs(list(obs), list(ref), "description")
+            if d:
+                self.fail("A", "describe-value", "model_description",
+                          f"model_description({op['formula']!r}) differs from a fresh process: {d}")
+        return {"op": "describe", "outcome": obs[0], "sd": digest(list(obs))}
 
     def op_inspect(self, op):
         t = op["target"]
